@@ -98,11 +98,14 @@ def do_query(p, q, m, first_daughter):
 
 
 def direct(p, m):
-    if m not in p.list_decay_mother_names():
-        return "missing"
-    modes = p.list_decay_modes(m)
-    alld = sorted({d for mode in modes for d in mode})
-    return json.loads(json.dumps([modes, p.build_decay_chains(m, stable_particles=alld)], default=repr))
+    try:
+        if m not in p.list_decay_mother_names():
+            return "missing"
+        modes = p.list_decay_modes(m)
+        alld = sorted({d for mode in modes for d in mode})
+        return json.loads(json.dumps([modes, p.build_decay_chains(m, stable_particles=alld)], default=repr))
+    except Exception as e:  # noqa: BLE001  (an answer that cannot be given is an observation, not a harness failure)
+        return "raised " + type(e).__name__
 
 
 def rest(p):
@@ -121,10 +124,13 @@ def rest(p):
 def derived(p, ms):
     out = {}
     for m in ms:
-        buf = io.StringIO()
-        with redirect_stdout(buf):
-            p.print_decay_modes(m)
-        out[m] = [p.build_decay_chains(m), p.expand_decay_modes(m), buf.getvalue()]
+        try:
+            buf = io.StringIO()
+            with redirect_stdout(buf):
+                p.print_decay_modes(m)
+            out[m] = [p.build_decay_chains(m), p.expand_decay_modes(m), buf.getvalue()]
+        except Exception as e:  # noqa: BLE001
+            out[m] = "raised " + type(e).__name__
     return json.loads(json.dumps(out, default=repr))
 
 
@@ -221,7 +227,12 @@ def build(args):
                 last = None
             else:
                 m = tabs[arg - 1] if arg > 0 else tabs[0]
-                last = do_query(p, op, m, first_d)
+                try:
+                    last = do_query(p, op, m, first_d)
+                except Machinery:
+                    raise
+                except Exception:  # noqa: BLE001  (shows up as a changed answer in the snapshot below)
+                    last = None
         content = []
         for i, m in enumerate(tabs):
             d = direct(p, m)
